@@ -169,6 +169,7 @@ class Session:
         self.with_xf = with_xf
         self.xf_scale = 1 if exact else 10000      # integer sub-group: the linear part is integral
         self.probe_hook = None
+        self.scale_hook = None
         self.ext_hook = None
         self.ext_params = {"lh": 200, "nd": 400, "fd": 1750}
         try:
@@ -342,6 +343,22 @@ class Session:
             if self.probe_hook is not None:
                 return g.remove_hook(self.probe_hook)
             return None
+        if c == "add_scale_hook":
+            # a user hook that RETURNS A NEW DICT with F and S multiplied by three (the hook contract allows either style):
+            # what is validated, emitted and remembered must be the hook's result
+            if self.scale_hook is None:
+                def scale_hook(origin, target, params, state):
+                    out = dict(params)
+                    for key in ("F", "S"):
+                        if out.get(key) is not None:
+                            out[key] = out[key] * 3
+                    return out
+                self.scale_hook = scale_hook
+            return g.add_hook(self.scale_hook)
+        if c == "remove_scale_hook":
+            if self.scale_hook is not None:
+                g.remove_hook(self.scale_hook)
+            return None
         if c == "add_extrusion_hook":
             from gscrib.hooks import extrusion_hook
             if self.ext_hook is not None:
@@ -479,6 +496,7 @@ class Session:
 
     def apply(self, d):
         eh_before = self.ext_hook is not None
+        sh_before = self.scale_hook is not None and self._hook_registered(self.scale_hook)      # in force DURING this call
         self.hook_log.clear()
         xf = self.observe_xf() if self.with_xf else None
         out = "ok"
@@ -494,6 +512,7 @@ class Session:
             "rep": self.snapshot(),
             "hooks": [dict(h) for h in self.hook_log],
             "ph": self.probe_hook is not None and self._hook_registered(self.probe_hook),
+            "sh": sh_before,
             "eh": bool(self.ext_hook is not None and eh_before),
             "ehp": dict(self.ext_params),
             "gc": self.gcoder_state(),
